@@ -41,4 +41,31 @@ extern int rt_exc_pending; extern int rt_exc_type; extern void *rt_exc_obj;
 int rt_exc_isa(int thrown, int caught);
 int rt_exc_sel(int cleanup, int n, ...);
 void rt_memcpy(void*, const void*, unsigned long); void rt_memmove(void*, const void*, unsigned long); void rt_memset(void*, unsigned char, unsigned long);
+/* ---- bit intrinsics ---- */
+static inline unsigned long rt_ctlz64(unsigned long x) { return x ? (unsigned long) __builtin_clzll(x) : 64UL; }
+static inline unsigned int rt_ctlz32(unsigned int x) { return x ? (unsigned int) __builtin_clz(x) : 32U; }
+static inline unsigned long rt_cttz64(unsigned long x) { return x ? (unsigned long) __builtin_ctzll(x) : 64UL; }
+static inline unsigned int rt_cttz32(unsigned int x) { return x ? (unsigned int) __builtin_ctz(x) : 32U; }
+static inline unsigned long rt_ctpop64(unsigned long x) { return (unsigned long) __builtin_popcountll(x); }
+static inline unsigned int rt_ctpop32(unsigned int x) { return (unsigned int) __builtin_popcount(x); }
+static inline unsigned char rt_ctpop8(unsigned char x) { return (unsigned char) __builtin_popcount(x); }
+static inline unsigned short rt_ctpop16(unsigned short x) { return (unsigned short) __builtin_popcount(x); }
+static inline unsigned char rt_ctlz8(unsigned char x) { return x ? (unsigned char) (__builtin_clz(x) - 24) : 8; }
+static inline unsigned short rt_ctlz16(unsigned short x) { return x ? (unsigned short) (__builtin_clz(x) - 16) : 16; }
+static inline unsigned char rt_cttz8(unsigned char x) { return x ? (unsigned char) __builtin_ctz(x) : 8; }
+static inline unsigned short rt_cttz16(unsigned short x) { return x ? (unsigned short) __builtin_ctz(x) : 16; }
+static inline unsigned long rt_pdep64(unsigned long src, unsigned long mask) {
+  unsigned long r = 0; int k = 0;
+  for (int i = 0; i < 64; i++) if ((mask >> i) & 1) { if ((src >> k) & 1) r |= 1UL << i; k++; }
+  return r; }
+static inline unsigned long rt_pext64(unsigned long src, unsigned long mask) {
+  unsigned long r = 0; int k = 0;
+  for (int i = 0; i < 64; i++) if ((mask >> i) & 1) { if ((src >> i) & 1) r |= 1UL << k; k++; }
+  return r; }
+static inline unsigned int rt_pdep32(unsigned int s, unsigned int m) { return (unsigned int) rt_pdep64(s, m); }
+static inline unsigned int rt_pext32(unsigned int s, unsigned int m) { return (unsigned int) rt_pext64(s, m); }
+static inline unsigned long rt_fshl64(unsigned long a, unsigned long b, unsigned long c) { c &= 63; return c ? (a << c) | (b >> (64 - c)) : a; }
+static inline unsigned long rt_fshr64(unsigned long a, unsigned long b, unsigned long c) { c &= 63; return c ? (a << (64 - c)) | (b >> c) : b; }
+static inline unsigned int rt_fshl32(unsigned int a, unsigned int b, unsigned int c) { c &= 31; return c ? (a << c) | (b >> (32 - c)) : a; }
+static inline unsigned int rt_fshr32(unsigned int a, unsigned int b, unsigned int c) { c &= 31; return c ? (a << (32 - c)) | (b >> c) : b; }
 #endif
